@@ -16,7 +16,7 @@ func checkC20(c *Ctx) {
 	c.Rule("C20.R1", "totality: every index into pattern / input in glob.Glob is in bounds for every pair of strings, and no abort is reachable (E2 + E4)")
 	c.Rule("C20.R2", "termination shape: no path around a loop of glob.Glob leaves every loop variable unchanged (an iteration that changes nothing can repeat forever); each loop variable only moves forward except for the backtrack assignment to a strictly advanced mark (E1 on the SSA loop)")
 	c.Rule("C20.R3", "the matcher is what is consulted: MatchHostPattern and VirtualHosts.Match call glob.Glob(pattern, input) in that argument order; Match returns the first element whose call is true, in slice order; MatchHost merges a host block iff one of its patterns matched, once per block, in configuration order (E1 + E4)")
-	c.Decides("panic-freedom and a necessary condition of termination of the matcher; that the consumers ask the matcher the right question in the right order")
+	c.Decides("panic-freedom and a necessary condition of termination of the matcher; that the consumers ask the matcher the right question in the right order; that lookups are independent of each other (fresh result, configuration not written, appends on the copy clipped)")
 	c.NotDecided("that Glob returns true exactly for instances of the pattern (a functional statement over all string pairs; the missing backtracking of the pinned matcher was found by reading, not by this check — DESIGN §4 F6)")
 
 	g := P.Func("pkg/glob", "Glob")
